@@ -454,7 +454,7 @@ def run(ctx):
     ctx.notes["proved"] = ("C16_piece_counts / C16_promotion_budget (pawns + excess pieces <= 8 per side is an invariant of legal play, hence "
                            "validatePieceCounts and pieceCountsValid accept every reachable position), C16_enough_remaining (first rule of "
                            "distLowerBound never fires when the goal is reachable), C16_proofgame_checker (checker accepts iff legal play "
-                           "from the initial position ends exactly in the goal)")
+                           "from the initial position ends exactly in the goal), C16_kernel_abstraction_partial (non-pawn, non-castling moves are kernel steps)")
     ctx.notes["searched_only"] = ("admissibility of the distance heuristic (assignment problems, pawn cones, cut sets), blocked squares and deadlocks, "
                                   "proof-kernel and extended-kernel search incl. all pruning rules and caches, trapped bishops, last-move analysis, "
                                   "verdict assembly: no proof; random legal games are run through the real code and any `illegal` verdict, "
@@ -463,7 +463,10 @@ def run(ctx):
                                               "contains a castling move and the excess is <= %d plies, to finding B (en passant) only when the very next "
                                               "move of the game is an en-passant capture, and only while the fixed witness of that finding still fails and "
                                               "its key is a listed known finding; everything else is a VIOLATION" % CASTLE_SLACK)
-    ctx.notes["kernel_abstraction"] = "C16_kernel_abstraction is kept as a statement (Definition ..._statement); not proved"
+    ctx.notes["kernel_abstraction"] = ("C16_kernel_abstraction_statement (every legal move is a kernel step of PG/Kernel.v, move kinds modelled from "
+                                       "proofkernel.hpp) is a statement only; proved part C16_kernel_abstraction_partial: moves of pieces other than pawns "
+                                       "(castling excluded) - quiet moves are stutters (bishops keep their square colour), captures are "
+                                       "pieceXPiece / pieceXPawn kernel moves; pawn moves and castling are not proved")
     rng = ctx.rng
     t_start = time.time()
 
